@@ -28,24 +28,24 @@ var Cur *World
 
 // World is one simulated environment.
 type World struct {
-	mu        sync.Mutex
-	tcpL      map[int]*TCPListener
-	udpBound  map[int]*udpSock
-	nextPort  int
-	nextConn  int
-	conns     []*Conn     // every stream connection ever made
-	socks     []*udpSock  // every datagram socket ever made
-	serials   map[string]*SerialLine
+	mu       sync.Mutex
+	tcpL     map[int]*TCPListener
+	udpBound map[int]*udpSock
+	nextPort int
+	nextConn int
+	conns    []*Conn    // every stream connection ever made
+	socks    []*udpSock // every datagram socket ever made
+	serials  map[string]*SerialLine
 
 	// hooks, set by scenarios before the node starts (never changed concurrently)
-	DialHook   func(network, addr string, attempt int) DialVerdict
-	dialCount  map[string]int
-	ChunkMode  int // default read segmentation for new connections: 0 whole, 1 bytewise, 2 random
-	SendBuf    int // default capacity of a stream direction in bytes
-	UDP        UDPFaults
-	OnNewConn  func(c *Conn) // called (under no lock) for every new node-side stream connection
-	OnNewUDP   func(c *UDPConn) // called for every UDP socket dialled by the node
-	NodeConns  []NodeConn    // node-side connections in the order they were made (dials, serial opens)
+	DialHook  func(network, addr string, attempt int) DialVerdict
+	dialCount map[string]int
+	ChunkMode int // default read segmentation for new connections: 0 whole, 1 bytewise, 2 random
+	SendBuf   int // default capacity of a stream direction in bytes
+	UDP       UDPFaults
+	OnNewConn func(c *Conn)    // called (under no lock) for every new node-side stream connection
+	OnNewUDP  func(c *UDPConn) // called for every UDP socket dialled by the node
+	NodeConns []NodeConn       // node-side connections in the order they were made (dials, serial opens)
 }
 
 // NodeConn describes one connection made by the node.
@@ -141,10 +141,10 @@ func timeoutError(op, network string) error {
 
 // Errors of the simulated network.
 var (
-	ErrRefused   = errors.New("connection refused")
-	ErrReset     = errors.New("connection reset by peer")
+	ErrRefused    = errors.New("connection refused")
+	ErrReset      = errors.New("connection reset by peer")
 	ErrBrokenPipe = errors.New("broken pipe")
-	ErrAddrInUse = errors.New("bind: address already in use")
+	ErrAddrInUse  = errors.New("bind: address already in use")
 )
 
 // ---------------------------------------------------------------------------
@@ -175,12 +175,12 @@ func poke(c chan struct{}) {
 
 // Faults of one end of a stream connection (set by scenarios; ops are counted from 1).
 type Faults struct {
-	ReadErrAt    int   // the k-th Read returns ReadErr (and every later one)
+	ReadErrAt    int // the k-th Read returns ReadErr (and every later one)
 	ReadErr      error
-	WriteErrAt   int   // the k-th Write returns WriteErr
+	WriteErrAt   int // the k-th Write returns WriteErr
 	WriteErr     error
-	WriteErrOnce bool  // only that one Write fails
-	WriteBlockAt int   // from the k-th Write on, writes block (until deadline / close / Unblock)
+	WriteErrOnce bool // only that one Write fails
+	WriteBlockAt int  // from the k-th Write on, writes block (until deadline / close / Unblock)
 }
 
 // Conn is one end of a simulated stream connection.
@@ -205,10 +205,10 @@ type Conn struct {
 	NWrites   int
 	NClose    int
 	chunkMode int
-	Written   []byte // everything accepted by Write on this end
+	Written   []byte                // everything accepted by Write on this end
 	OnWrite   func(p []byte, k int) // called at the start of every Write call (no lock held)
-	BlockedAt time.Duration        // simulated time at which a WriteBlockAt fault first blocked (0 = never)
-	FaultAt   time.Duration        // simulated time of the first injected / timed-out write failure (0 = never)
+	BlockedAt time.Duration         // simulated time at which a WriteBlockAt fault first blocked (0 = never)
+	FaultAt   time.Duration         // simulated time of the first injected / timed-out write failure (0 = never)
 }
 
 func (w *World) newPair(kind string, capacity int) (a, b *Conn) {
@@ -587,13 +587,13 @@ var _ net.Conn = (*Conn)(nil)
 
 // TCPListener is a simulated listening socket.
 type TCPListener struct {
-	W       *World
-	addr    Addr
-	q       chan *Conn
-	done    chan struct{}
-	mu      sync.Mutex
-	closed  bool
-	Node    bool
+	W        *World
+	addr     Addr
+	q        chan *Conn
+	done     chan struct{}
+	mu       sync.Mutex
+	closed   bool
+	Node     bool
 	Accepted []*Conn
 }
 
@@ -868,13 +868,13 @@ func (w *World) Conns() []*Conn {
 
 // SerialLine is a simulated serial device.
 type SerialLine struct {
-	Device   string
-	OpenErr  error // returned by Open while set
-	mu       sync.Mutex
-	Opens    int
-	Cur      *Conn // node side of the currently open port
-	PeerEnd  *Conn
-	OnOpen   func(node, peer *Conn)
+	Device     string
+	OpenErr    error // returned by Open while set
+	mu         sync.Mutex
+	Opens      int
+	Cur        *Conn // node side of the currently open port
+	PeerEnd    *Conn
+	OnOpen     func(node, peer *Conn)
 	FailOpenAt map[int]bool
 }
 
@@ -890,15 +890,17 @@ func (w *World) AddSerial(device string) *SerialLine {
 // SerialPort is what serial.Open returns in simulation.
 type SerialPort struct{ *Conn }
 
-func (SerialPort) SetMode(*serial.Mode) error                           { return nil }
-func (SerialPort) Drain() error                                         { return nil }
-func (SerialPort) ResetInputBuffer() error                              { return nil }
-func (SerialPort) ResetOutputBuffer() error                             { return nil }
-func (SerialPort) SetDTR(bool) error                                    { return nil }
-func (SerialPort) SetRTS(bool) error                                    { return nil }
-func (SerialPort) GetModemStatusBits() (*serial.ModemStatusBits, error) { return &serial.ModemStatusBits{}, nil }
-func (SerialPort) SetReadTimeout(time.Duration) error                   { return nil }
-func (SerialPort) Break(time.Duration) error                            { return nil }
+func (SerialPort) SetMode(*serial.Mode) error { return nil }
+func (SerialPort) Drain() error               { return nil }
+func (SerialPort) ResetInputBuffer() error    { return nil }
+func (SerialPort) ResetOutputBuffer() error   { return nil }
+func (SerialPort) SetDTR(bool) error          { return nil }
+func (SerialPort) SetRTS(bool) error          { return nil }
+func (SerialPort) GetModemStatusBits() (*serial.ModemStatusBits, error) {
+	return &serial.ModemStatusBits{}, nil
+}
+func (SerialPort) SetReadTimeout(time.Duration) error { return nil }
+func (SerialPort) Break(time.Duration) error          { return nil }
 
 // SerialOpen replaces serial.Open for package gomavlib.
 func SerialOpen(device string, mode *serial.Mode) (serial.Port, error) {
